@@ -1521,8 +1521,9 @@ func (x *g) corner(d int) string {
 		// literals only (LIT): with names kept the else block is dissolved into the switch (known finding), nothing outside may see its names
 		{2015, "switch-else-lexical", "(function(pa,pb){var lc=LIT;switch(pa){case 1:if(pb>1e9){break}else{let e=LIT,t=LIT,n=LIT;$(e,t,n,pa,pb,lc)}case 2:{let r=LIT;$(r,pa)}}})(1,LIT)"},
 		{2015, "switch-else-lexical", "(function(pa){let lo=LIT;switch(pa){case 1:if(lo>1e9){return}else{const t=LIT,e=LIT;class n{};$(t,e,typeof n,pa,lo)}}})(1)"},
-		{2015, "param-default-free-var", "(function(){var t=E,e=E,n=E;function W(pa=t,pb=e){var lq=E,lr=E;return[pa,pb,lq,lr,t,e,n]}$(W());$(((pa=n)=>{var lq=E;return[pa,lq,n]})())})()"},
-		{2015, "param-default-free-var", "(function(t){var W=function(pa=t){var lq=E;return[pa,lq,t]};$(W());$(({m(pa=t,pb=t){var lq=E,lr=E;return[pa,pb,lq,lr,t]}}).m())})(E)"},
+		// the free variable of the default value gets the second (third) short name, the function has one parameter: the name falls to a body variable next
+		{2015, "param-default-free-var", "(function(){var V=LIT,W=LIT;V++;V+=2;V++;$((function(pa=W){var lq=pa*2;return lq+W})(),V)})()"},
+		{2015, "param-default-free-var", "(function(){var V=LIT,W=LIT,cx=LIT;V++;V++;V++;V++;W++;W++;$(((pa=cx)=>{let lq=pa+1,lr=pa+2;return lq+lr+cx})(),({m(pa=cx){const lq=3,lr=4;return lq+lr+cx+pa}}).m(),V,W)})()"},
 		{5, "many-locals", "MANYLOCALS"},
 	}
 	t := ts[x.n("corner", len(ts)-1)]
